@@ -9,6 +9,7 @@ CONSTANTS
   KF_V12OmitsEmpty = FALSE
   KF_MarkedFlagUncovered = FALSE
   KF_CoinbaseRider = FALSE
+  KF_PlayPooledIdUnchecked = FALSE
 CONSTRAINT Book
 POSTCONDITION Post
 CHECK_DEADLOCK FALSE
